@@ -233,6 +233,14 @@ type WxFault struct {
 
 func (w *World) Start() Day { return w.Rot[0].Harvest }
 
+// DateWindow is the span of dates the configured date format can express unambiguously.
+func (w *World) DateWindow() (lo, hi Day) {
+	if w.Cfg.DateFormat == DEshort || w.Cfg.DateFormat == ENshort {
+		return DayOf(1900+w.Cfg.DivideCentury, 1, 1), DayOf(1999+w.Cfg.DivideCentury, 12, 31)
+	}
+	return DayOf(1901, 1, 1), DayOf(2099, 12, 31)
+}
+
 // ---------------------------------------------------------------- parameter tables (read from the repository, not mirrored)
 
 type ParamTables struct {
